@@ -1555,6 +1555,398 @@ theorem async_fcnt_strict {σ} (g : Rng σ) (cfg : DevCfg) (d : DevRun) (rs : σ
   have hs := runC_fcnt_strict g d.m rs _ ms' ocs (some 0) (fun _ e _ _ => by cases e; exact Nat.zero_le _) hrun
   exact fcntStrict_obs cfg ops obs ocs (some 0) hrel.obs (asyncOps_length g cfg d rs ops obs d' rs' h) hs
 
+/-! ### the non-blocking front-end -/
+
+/-- what one event of the non-blocking machine shows to the radio and the application -/
+structure NbObs where
+  /-- the data frame handed to the radio: a `send` in `Idle` that the MAC accepts (`sentFrame`) -/
+  frame : Option UplinkDesc
+  /-- a `join` in `Idle` (the MAC drops the session at once) -/
+  joinStart : Bool
+  resp : NbResp
+
+def nbObsOf {σ} (g : Rng σ) (r : NbRun) (rs : σ) (ev : NbEvent) (resp : NbResp) : NbObs :=
+  { frame := (match r.st, ev with
+      | .idle, .send d p c => sentFrame g r.m d p c rs
+      | _, _ => none),
+    joinStart := (match r.st, ev with
+      | .idle, .join => true
+      | _, _ => false),
+    resp := resp }
+
+/-- a session of the non-blocking device with what each event shows -/
+def nbRunObs {σ} (g : Rng σ) (cfg : NbCfg) : NbRun → σ → List (NbEvent × List NbItem) → M (List NbObs × NbRun × σ)
+  | r, rs, [] => pure ([], r, rs)
+  | r, rs, (ev, items) :: rest => do
+    let (resp, r', rs') ← nbEvent g cfg r rs ev items
+    let (obs, r'', rs'') ← nbRunObs g cfg r' rs' rest
+    pure (nbObsOf g r rs ev resp :: obs, r'', rs'')
+
+def nextBound (b : Option Nat) (ob : NbObs) : Option Nat :=
+  if ob.resp == .mac .sessionExpired then none
+  else match ob.frame with
+    | some f => some (f.fcnt + 1)
+    | none => if ob.joinStart then some 0 else b
+
+/-- **`FcntStrict` on the events of the non-blocking machine**: each data frame handed to the radio
+carries a counter at or above the bound; after a frame with counter `n` the bound is `n + 1`, until
+`SessionExpired` is reported (no claim after that); a `join` accepted in `Idle` starts a new session -/
+def FcntStrictNb : Option Nat → List NbObs → Prop
+  | _, [] => True
+  | b, ob :: rest => (∀ f lo, ob.frame = some f → b = some lo → lo ≤ f.fcnt) ∧ FcntStrictNb (nextBound b ob) rest
+
+/-- what the exchange in progress will leave as the bound -/
+def Promise {σ} (g : Rng σ) (pre : MacState × σ) (b : Option Nat) : Option NbGhost → Prop
+  | none => True
+  | some x =>
+    match x.kind with
+    | some (d, p, c) => ∃ o m1 rs1, macSend g pre.1 d p c pre.2 = .ok (some o, m1, rs1) ∧ ∀ lo, b = some lo → lo ≤ o.frame.fcnt + 1
+    | none => ∀ lo, b = some lo → lo = 0
+
+/-- the invariant of `nb_fcnt_strict`: the refinement invariant, the bound respected by the MAC
+state in `Idle`, and — during an exchange — respected by the history's state, with the exchange's
+own frame accounted for -/
+def NbBound {σ} (g : Rng σ) (b : Option Nat) (pre : MacState × σ) (gh : Option NbGhost) (r : NbRun) (rs : σ) : Prop :=
+  NbInv g pre gh r rs ∧ (r.st = .idle → Rel r.m b) ∧ (r.st ≠ .idle → (∃ b0, Rel pre.1 b0) ∧ Promise g pre b gh)
+
+theorem nbInv_flight {σ} {g : Rng σ} {pre : MacState × σ} {gh : Option NbGhost} {r : NbRun} {rs : σ}
+    (h : NbInv g pre gh r rs) (hst : r.st ≠ .idle) : ∃ x, gh = some x := by
+  unfold NbInv at h
+  cases hs : r.st with
+  | idle => exact absurd hs hst
+  | sendingData join tx => rw [hs] at h; obtain ⟨⟨k, a, c, e, _⟩, _⟩ := h; exact ⟨_, e⟩
+  | waitingForRxWindow join tx second t => rw [hs] at h; obtain ⟨k, a, c, e, _⟩ := h; exact ⟨_, e⟩
+  | waitingForRx join tx second t => rw [hs] at h; obtain ⟨k, a, c, e, _⟩ := h; exact ⟨_, e⟩
+
+theorem nbInv_none_idle {σ} {g : Rng σ} {pre : MacState × σ} {r : NbRun} {rs : σ}
+    (h : NbInv g pre none r rs) : r.st = .idle ∧ pre = (r.m, rs) := by
+  by_cases hst : r.st = .idle
+  · unfold NbInv at h; rw [hst] at h; exact ⟨hst, h.2⟩
+  · obtain ⟨x, e⟩ := nbInv_flight h hst; cases e
+
+theorem nbInv_some_flight {σ} {g : Rng σ} {pre : MacState × σ} {x : NbGhost} {r : NbRun} {rs : σ}
+    (h : NbInv g pre (some x) r rs) : r.st ≠ .idle := by
+  intro hst
+  unfold NbInv at h; rw [hst] at h; cases h.1
+
+/-- while an exchange is in progress the abstraction keeps its kind -/
+theorem nbAbs_flight (x : NbGhost) (st : NbState) (ev : NbEvent) (item : NbItem) (st' : NbState) (hst : st ≠ .idle) :
+    (∃ y, nbAbs (some x) st ev item st' = (none, some y) ∧ y.kind = x.kind) ∨
+    (∃ y tx, nbAbs (some x) st ev item st' = (some (ghostEv y tx), none) ∧ y.kind = x.kind) := by
+  unfold nbAbs
+  cases st with
+  | idle => exact absurd rfl hst
+  | sendingData join tx => cases ev <;> exact Or.inl ⟨x, rfl, rfl⟩
+  | waitingForRxWindow join tx second t => cases ev <;> exact Or.inl ⟨x, rfl, rfl⟩
+  | waitingForRx join tx second t =>
+    cases ev with
+    | join => exact Or.inl ⟨x, rfl, rfl⟩
+    | send d p c => exact Or.inl ⟨x, rfl, rfl⟩
+    | timeout =>
+      simp only
+      split
+      · exact Or.inr ⟨x, tx, rfl, rfl⟩
+      · exact Or.inl ⟨x, rfl, rfl⟩
+    | radio e =>
+      cases e with
+      | txDone ts => exact Or.inl ⟨x, rfl, rfl⟩
+      | rx snr v =>
+        simp only
+        split
+        · split
+          · exact Or.inr ⟨_, tx, rfl, by cases second <;> rfl⟩
+          · exact Or.inl ⟨_, rfl, by cases second <;> rfl⟩
+        · exact Or.inl ⟨x, rfl, rfl⟩
+
+theorem step_uplink_shape {σ} (g : Rng σ) (ms ms' : MacState × σ) (d : List Nat) (p : Nat) (c : Bool) (f : Option Nat)
+    (rx1 rx2 : Option (RxView × Int)) (mp1 mp2 : Nat) (out : Out)
+    (h : step g ms (.uplink d p c f rx1 rx2 mp1 mp2) = .ok (ms', out)) :
+    sentFrame g ms.1 d p c ms.2 = out.frame? ∧ (out = .notJoined ∨ ∃ o r dl, out = .up o r dl) := by
+  simp only [step] at h
+  obtain ⟨⟨o, m1, s1⟩, hsend, hk⟩ := Except.bind_eq_ok h
+  unfold sentFrame
+  rw [hsend]
+  cases o with
+  | none =>
+    simp only [pure, Except.pure, Except.ok.injEq, Prod.mk.injEq] at hk
+    obtain ⟨_, rfl⟩ := hk
+    exact ⟨rfl, Or.inl rfl⟩
+  | some o =>
+    simp only at hk
+    cases f with
+    | some k =>
+      simp only at hk
+      obtain ⟨m2, _, hk2⟩ := Except.bind_eq_ok hk
+      simp only [pure, Except.pure, Except.ok.injEq, Prod.mk.injEq] at hk2
+      obtain ⟨_, rfl⟩ := hk2
+      exact ⟨rfl, Or.inr ⟨_, _, _, rfl⟩⟩
+    | none =>
+      simp only at hk
+      obtain ⟨⟨r, dl, m2⟩, _, hk2⟩ := Except.bind_eq_ok hk
+      simp only [pure, Except.pure, Except.ok.injEq, Prod.mk.injEq] at hk2
+      obtain ⟨_, rfl⟩ := hk2
+      exact ⟨rfl, Or.inr ⟨_, _, _, rfl⟩⟩
+
+theorem rel_none (m : MacState) : Rel m none := fun lo e => by cases e
+
+theorem rel_weaken {m : MacState} {n : Nat} {b : Option Nat} (h : Rel m (some n)) (hb : ∀ lo, b = some lo → lo ≤ n) : Rel m b := by
+  intro lo e s hs
+  exact Nat.le_trans (hb lo e) (h n rfl s hs)
+
+/-- the response of a completed exchange reports expiry iff the history's output does -/
+theorem nbResp_expired {resp : NbResp} {o : SendOut} {r : Option Response} {dl : Option (Nat × List Nat)}
+    (h : NbRespRel resp (.up o r dl)) : (resp == .mac .sessionExpired) = expiredResp r := by
+  cases r with
+  | none =>
+    simp only [NbRespRel] at h
+    rcases h with rfl | rfl <;> rfl
+  | some r =>
+    simp only [NbRespRel] at h
+    subst h
+    by_cases hx : r = Response.sessionExpired
+    · subst hx; rfl
+    · have h1 : (NbResp.mac r == NbResp.mac Response.sessionExpired) = false := by
+        simp only [beq_eq_false_iff_ne, ne_eq, NbResp.mac.injEq]; exact hx
+      have h2 : expiredResp (some r) = false := by
+        simp only [expiredResp, beq_eq_false_iff_ne, ne_eq, Option.some.injEq]; exact hx
+      rw [h1, h2]
+
+theorem nbInv_started {σ} {g : Rng σ} {pre : MacState × σ} {x : NbGhost} {r : NbRun} {rs : σ}
+    (h : NbInv g pre (some x) r rs) : ∃ join tx, Started g pre x.kind join tx r.m rs := by
+  unfold NbInv at h
+  cases hs : r.st with
+  | idle => rw [hs] at h; cases h.1
+  | sendingData join tx =>
+    rw [hs] at h; obtain ⟨⟨k, a, c, e, hst, _⟩, _⟩ := h; cases e; exact ⟨join, tx, hst⟩
+  | waitingForRxWindow join tx second t =>
+    rw [hs] at h; obtain ⟨k, a, c, e, hst, _⟩ := h; cases e; exact ⟨join, tx, hst⟩
+  | waitingForRx join tx second t =>
+    rw [hs] at h; obtain ⟨k, a, c, e, hst, _⟩ := h; cases e; exact ⟨join, tx, hst⟩
+
+theorem nbObsOf_flight {σ} (g : Rng σ) (r : NbRun) (rs : σ) (ev : NbEvent) (resp : NbResp) (hst : r.st ≠ .idle) :
+    (nbObsOf g r rs ev resp).frame = none ∧ (nbObsOf g r rs ev resp).joinStart = false := by
+  unfold nbObsOf
+  cases hs : r.st with
+  | idle => exact absurd hs hst
+  | sendingData join tx => exact ⟨rfl, rfl⟩
+  | waitingForRxWindow join tx second t => exact ⟨rfl, rfl⟩
+  | waitingForRx join tx second t => exact ⟨rfl, rfl⟩
+
+theorem promise_weaken {σ} {g : Rng σ} {pre : MacState × σ} {b b' : Option Nat} {x y : NbGhost}
+    (h : Promise g pre b (some x)) (hk : y.kind = x.kind) (hb : b' = b ∨ b' = none) : Promise g pre b' (some y) := by
+  simp only [Promise] at h ⊢
+  rw [hk]
+  cases hkind : x.kind with
+  | none =>
+    rw [hkind] at h
+    simp only at h ⊢
+    intro lo e
+    rcases hb with rfl | rfl
+    · exact h lo e
+    · cases e
+  | some dpc =>
+    obtain ⟨d, p, c⟩ := dpc
+    rw [hkind] at h
+    simp only at h ⊢
+    obtain ⟨o, m1, rs1, hs, hle⟩ := h
+    refine ⟨o, m1, rs1, hs, ?_⟩
+    intro lo e
+    rcases hb with rfl | rfl
+    · exact hle lo e
+    · cases e
+
+/-- one event of the non-blocking machine, seen from the counter bound -/
+theorem nbStep_bound {σ} (g : Rng σ) (cfg : NbCfg) (b : Option Nat) (pre : MacState × σ) (gh : Option NbGhost) (r : NbRun)
+    (rs : σ) (ev : NbEvent) (items : List NbItem) (resp : NbResp) (r' : NbRun) (rs' : σ)
+    (hJ : NbBound g b pre gh r rs) (h : nbEvent g cfg r rs ev items = .ok (resp, r', rs')) :
+    (∀ f lo, (nbObsOf g r rs ev resp).frame = some f → b = some lo → lo ≤ f.fcnt) ∧
+    ∃ pre' gh', NbBound g (nextBound b (nbObsOf g r rs ev resp)) pre' gh' r' rs' := by
+  have rel0 : ∀ m'', Rel m'' (some 0) := fun m'' lo e s _ => by cases e; exact Nat.zero_le _
+  obtain ⟨hinv, hidle, hfl⟩ := hJ
+  have hpost := nbStep_inv g cfg pre gh r rs ev items resp r' rs' hinv h
+  by_cases hst : r.st = .idle
+  · have hi : gh = none ∧ pre = (r.m, rs) := by unfold NbInv at hinv; rw [hst] at hinv; exact hinv
+    obtain ⟨rfl, rfl⟩ := hi
+    have hRel := hidle hst
+    -- the bound after an event that leaves the machine in `Idle` with the MAC state untouched
+    have quiet : nbAbs none r.st ev (headItem items) r'.st = (none, none) →
+        (nbObsOf g r rs ev resp).frame = none → (nbObsOf g r rs ev resp).joinStart = false →
+        (∀ f lo, (nbObsOf g r rs ev resp).frame = some f → b = some lo → lo ≤ f.fcnt) ∧
+        ∃ pre' gh', NbBound g (nextBound b (nbObsOf g r rs ev resp)) pre' gh' r' rs' := by
+      intro hab hf hj
+      rw [hab] at hpost
+      obtain ⟨hst', hpre⟩ := nbInv_none_idle hpost.1
+      have hm : r'.m = r.m := by simp only [Prod.mk.injEq] at hpre; exact hpre.1.symm
+      refine ⟨fun f lo e => (by rw [hf] at e; cases e), (r.m, rs), none, hpost.1, fun _ => ?_, fun hne => absurd hst' hne⟩
+      rw [hm]
+      unfold nextBound
+      rw [hf, hj]
+      split
+      · exact rel_none _
+      · exact hRel
+    cases ev with
+    | timeout => exact quiet (by rw [hst]; rfl) (by unfold nbObsOf; rw [hst]) (by unfold nbObsOf; rw [hst])
+    | radio e => exact quiet (by rw [hst]; rfl) (by unfold nbObsOf; rw [hst]) (by unfold nbObsOf; rw [hst])
+    | join =>
+      have hf : (nbObsOf g r rs .join resp).frame = none := by unfold nbObsOf; rw [hst]
+      have hj : (nbObsOf g r rs .join resp).joinStart = true := by unfold nbObsOf; rw [hst]
+      refine ⟨fun f lo e => (by rw [hf] at e; cases e), ?_⟩
+      have hb' : nextBound b (nbObsOf g r rs .join resp) = none ∨ nextBound b (nbObsOf g r rs .join resp) = some 0 := by
+        unfold nextBound; rw [hf, hj]; split
+        · exact Or.inl rfl
+        · exact Or.inr rfl
+      rw [hst] at hpost
+      by_cases hid : r'.st.isIdle = true
+      · simp only [nbAbs, hid, if_true, NbStepPost] at hpost
+        obtain ⟨out, _, hinv', _, _⟩ := hpost
+        obtain ⟨hst', _⟩ := nbInv_none_idle hinv'
+        refine ⟨(r'.m, rs'), none, hinv', fun _ => ?_, fun hne => absurd hst' hne⟩
+        rcases hb' with e | e <;> rw [e]
+        · exact rel_none _
+        · exact rel0 _
+      · simp only [nbAbs, hid, Bool.false_eq_true, if_false, NbStepPost] at hpost
+        refine ⟨(r.m, rs), _, hpost.1, fun hi => absurd hi (nbInv_some_flight hpost.1), fun _ => ⟨⟨b, hRel⟩, ?_⟩⟩
+        simp only [Promise]
+        intro lo e
+        rcases hb' with e' | e' <;> rw [e'] at e <;> cases e
+        rfl
+    | send d p c =>
+      have hf : (nbObsOf g r rs (.send d p c) resp).frame = sentFrame g r.m d p c rs := by unfold nbObsOf; rw [hst]
+      have hj : (nbObsOf g r rs (.send d p c) resp).joinStart = false := by unfold nbObsOf; rw [hst]
+      rw [hst] at hpost
+      by_cases hid : r'.st.isIdle = true
+      · simp only [nbAbs, hid, if_true, NbStepPost] at hpost
+        obtain ⟨out, hstep, hinv', hresp, _⟩ := hpost
+        obtain ⟨hst', _⟩ := nbInv_none_idle hinv'
+        obtain ⟨hframe, hshape⟩ := step_uplink_shape g (r.m, rs) (r'.m, rs') d p c (some 0) none none 0 0 out hstep
+        have hsp := step_rel g r.m r'.m rs rs' _ out b hRel hstep
+        rcases hshape with rfl | ⟨o, rr, dl, rfl⟩
+        · simp only [Out.frame?] at hframe
+          refine ⟨fun f lo e => (by rw [hf, hframe] at e; cases e), (r'.m, rs'), none, hinv', fun _ => ?_, fun hne => absurd hst' hne⟩
+          simp only [stepPost, isJoin, Bool.false_eq_true, if_false] at hsp
+          unfold nextBound
+          rw [hf, hframe, hj]
+          split
+          · exact rel_none _
+          · exact hsp
+        · simp only [Out.frame?] at hframe
+          simp only [stepPost] at hsp
+          refine ⟨fun f lo e => (by rw [hf, hframe] at e; cases e; exact hsp.1 lo), (r'.m, rs'), none, hinv',
+            fun _ => ?_, fun hne => absurd hst' hne⟩
+          unfold nextBound
+          have hr : (nbObsOf g r rs (.send d p c) resp).resp = resp := rfl
+          rw [hf, hframe, hr, nbResp_expired hresp]
+          exact hsp.2
+      · simp only [nbAbs, hid, Bool.false_eq_true, if_false, NbStepPost] at hpost
+        obtain ⟨join, tx, hstart⟩ := nbInv_started hpost.1
+        simp only [Started] at hstart
+        obtain ⟨_, o, hsend, _⟩ := hstart
+        have hsf : sentFrame g r.m d p c rs = some o.frame := by unfold sentFrame; rw [hsend]
+        have hhyp : step g (r.m, rs) (.uplink d p c (some 0) none none 0 0) =
+            .ok ((faultAfterTx r'.m, rs'), .up o (if faultExpired r'.m then some .sessionExpired else none) none) := by
+          simp only [step, hsend, faultedCycle, bind, Except.bind, pure, Except.pure]
+        have hsp := step_rel g r.m _ rs rs' _ _ b hRel hhyp
+        simp only [stepPost] at hsp
+        refine ⟨fun f lo e => (by rw [hf, hsf] at e; cases e; exact hsp.1 lo), (r.m, rs), _, hpost.1,
+          fun hi => absurd hi (nbInv_some_flight hpost.1), fun _ => ⟨⟨b, hRel⟩, ?_⟩⟩
+        simp only [Promise]
+        refine ⟨o, r'.m, rs', hsend, ?_⟩
+        intro lo e
+        unfold nextBound at e
+        rw [hf, hsf] at e
+        split at e
+        · cases e
+        · simp only [Option.some.injEq] at e; omega
+  · obtain ⟨x, rfl⟩ := nbInv_flight hinv hst
+    obtain ⟨hf, hj⟩ := nbObsOf_flight g r rs ev resp hst
+    obtain ⟨⟨b0, hRel0⟩, hprom⟩ := hfl hst
+    have hb' : nextBound b (nbObsOf g r rs ev resp) = b ∨ nextBound b (nbObsOf g r rs ev resp) = none := by
+      unfold nextBound; rw [hf, hj]; split
+      · exact Or.inr rfl
+      · exact Or.inl rfl
+    refine ⟨fun f lo e => (by rw [hf] at e; cases e), ?_⟩
+    rcases nbAbs_flight x r.st ev (headItem items) r'.st hst with ⟨y, hab, hk⟩ | ⟨y, tx, hab, hk⟩
+    · rw [hab] at hpost
+      exact ⟨pre, some y, hpost.1, fun hi => absurd hi (nbInv_some_flight hpost.1),
+        fun _ => ⟨⟨b0, hRel0⟩, promise_weaken hprom hk hb'⟩⟩
+    · rw [hab] at hpost
+      obtain ⟨out, hstep, hinv', hresp, _⟩ := hpost
+      obtain ⟨hst', _⟩ := nbInv_none_idle hinv'
+      refine ⟨(r'.m, rs'), none, hinv', fun _ => ?_, fun hne => absurd hst' hne⟩
+      obtain ⟨m0, s0⟩ := pre
+      have hsp := step_rel g m0 r'.m s0 rs' _ out b0 hRel0 hstep
+      simp only [Promise] at hprom
+      cases hkind : x.kind with
+      | none =>
+        rw [hkind] at hprom
+        simp only at hprom
+        have hev : ghostEv y tx = .joinOtaa none y.rx1 y.rx2 tx.rx1.maxPayload.toNat tx.rx2.maxPayload.toNat := by
+          unfold ghostEv; rw [hk, hkind]
+        rw [hev] at hsp hstep
+        have hr0 : Rel r'.m (some 0) := rel0 _
+        rcases hb' with e | e <;> rw [e]
+        · exact rel_weaken hr0 (fun lo e => by rw [hprom lo e]; exact Nat.le_refl _)
+        · exact rel_none _
+      | some dpc =>
+        obtain ⟨d, p, c⟩ := dpc
+        rw [hkind] at hprom
+        simp only at hprom
+        obtain ⟨o, m1, rs1, hsend, hle⟩ := hprom
+        have hev : ghostEv y tx = .uplink d p c none y.rx1 y.rx2 tx.rx1.maxPayload.toNat tx.rx2.maxPayload.toNat := by
+          unfold ghostEv; rw [hk, hkind]
+        rw [hev] at hsp hstep
+        obtain ⟨hframe, hshape⟩ := step_uplink_shape g (m0, s0) (r'.m, rs') d p c none _ _ _ _ out hstep
+        have hsf : sentFrame g m0 d p c s0 = some o.frame := by unfold sentFrame; rw [hsend]
+        simp only at hframe
+        rw [hsf] at hframe
+        rcases hshape with rfl | ⟨o', rr, dl, rfl⟩
+        · cases hframe
+        · simp only [Out.frame?, Option.some.injEq] at hframe
+          simp only [stepPost] at hsp
+          rcases hb' with e | e <;> rw [e]
+          · have hx := nbResp_expired hresp
+            unfold nextBound at e
+            have hr : (nbObsOf g r rs ev resp).resp = resp := rfl
+            rw [hf, hj, hr] at e
+            by_cases hexp : expiredResp rr = true
+            · rw [hx, hexp] at e
+              simp only [if_true] at e
+              rw [← e]; exact rel_none _
+            · simp only [hexp, Bool.false_eq_true, if_false] at hsp
+              exact rel_weaken hsp.2 (fun lo e => by rw [← hframe]; exact hle lo e)
+          · exact rel_none _
+
+theorem nbRunObs_bound {σ} (g : Rng σ) (cfg : NbCfg) (b : Option Nat) (pre : MacState × σ) (gh : Option NbGhost) (r : NbRun)
+    (rs : σ) (evs : List (NbEvent × List NbItem)) (obs : List NbObs) (r' : NbRun) (rs' : σ)
+    (hJ : NbBound g b pre gh r rs) (h : nbRunObs g cfg r rs evs = .ok (obs, r', rs')) : FcntStrictNb b obs := by
+  induction evs generalizing b pre gh r rs obs with
+  | nil =>
+    simp only [nbRunObs, pure, Except.pure, Except.ok.injEq, Prod.mk.injEq] at h
+    obtain ⟨rfl, _⟩ := h
+    trivial
+  | cons x rest ih =>
+    obtain ⟨ev, items⟩ := x
+    unfold nbRunObs at h
+    obtain ⟨⟨resp, r1, rs1⟩, hev, hk⟩ := Except.bind_eq_ok h
+    obtain ⟨⟨obs1, r2, rs2⟩, hrun, hk2⟩ := Except.bind_eq_ok hk
+    simp only [pure, Except.pure, Except.ok.injEq, Prod.mk.injEq] at hk2
+    obtain ⟨rfl, rfl, rfl⟩ := hk2
+    obtain ⟨hcheck, pre', gh', hJ'⟩ := nbStep_bound g cfg b pre gh r rs ev items resp r1 rs1 hJ hev
+    exact ⟨hcheck, ih _ pre' gh' r1 rs1 obs1 hJ' hrun⟩
+
+/-- **the frames the non-blocking front-end hands to the radio carry strictly increasing counters
+within a session, for every event sequence.**  From `Idle` in any MAC state, for every sequence of
+application, radio and timer events with any radio answers (protocol violations, radio errors,
+`TxDone` at once, several frames in one window, stray timeouts): every data frame handed to the radio
+carries a counter strictly above the previous one of the same session, until `SessionExpired` is
+reported; a `join` accepted in `Idle` starts a new session.  Obtained from the refinement invariant
+(`nbStep_inv`) and the history's step theorem (`step_rel`). -/
+theorem nb_fcnt_strict {σ} (g : Rng σ) (cfg : NbCfg) (r : NbRun) (rs : σ) (evs : List (NbEvent × List NbItem))
+    (obs : List NbObs) (r' : NbRun) (rs' : σ) (hidle : r.st = .idle)
+    (h : nbRunObs g cfg r rs evs = .ok (obs, r', rs')) : FcntStrictNb (some 0) obs :=
+  nbRunObs_bound g cfg (some 0) (r.m, rs) none r rs evs obs r' rs'
+    ⟨nbInv_idle g r rs hidle, fun _ _ e _ _ => by cases e; exact Nat.zero_le _, fun hne => absurd hidle hne⟩ h
+
 /-! non-vacuity -/
 def cfg0 : Config :=
   { dataRate := 0, rx1Delay := 1000, txPower := none, rx1DrOffset := 0, rx2DataRate := none, rx2Frequency := none, adrEnabled := true }
@@ -1600,3 +1992,4 @@ end C06
 #print axioms C06.fault_fcnt
 #print axioms C06.runC_fcnt_strict
 #print axioms C06.async_fcnt_strict
+#print axioms C06.nb_fcnt_strict
